@@ -447,3 +447,12 @@ Proof.
         (conj gen_field_loop_is_model gen_fields_check_is_model)))))).
 Qed.
 Print Assumptions C17_gen_loops_are_model.
+
+(* round 4: the hand-written Signature of str.format in get_default_argspecs has the
+   parameter kinds CPython exhibits: receiver positional-only, *args, **kwargs
+   (Gen/FormatSigs.v, regenerated from the source and from the running CPython) *)
+Theorem C17_str_format_signature_pinned :
+  map snd PV.Gen.FormatSigs.str_format_params_src = PV.Gen.FormatSigs.str_format_kinds_cpython /\
+  PV.Gen.FormatSigs.str_format_kinds_cpython = [0; 2; 4]%N.
+Proof. exact str_format_signature_pinned. Qed.
+Print Assumptions C17_str_format_signature_pinned.
